@@ -1,5 +1,6 @@
 import RsMatterVerif.Model.Chunk
 import RsMatterVerif.Model.ChunkEvents
+import RsMatterVerif.Model.ChunkCursor
 import Driver.Util
 /-! Driver for C14: the chunking model predicts, from the request (value lengths, data-version
 filters, event paths and filters, the events in the queue, the length of the transmit buffer,
@@ -13,6 +14,12 @@ reassembled attribute reports equal the selected values (each once, in order, li
 contents intact; an error status only for a value that fits no message), and the event reports are
 the statuses of the invalid paths followed by exactly the queued events that match the paths and
 pass the filters, each once, in queue order.
+
+The attribute section is executed a second time on the cursor-level model (`Model/ChunkCursor.lean`:
+bytes of the write buffer, failing writes that leave a part behind (worst case: every free byte),
+explicit rewind positions, the list index of `send_array_items`, loops with fuel); the reports that
+start in the bytes of each message it sends, and the message lengths, must be those of the messages
+just compared with the implementation (`cursorCheck`, verdict `DIS cursor …`).
 
 The event queue itself is modelled too (`Model/ChunkEvents.lean`): from the pushed events (priority,
 length of the event in the queue = report length − `KR`) the model predicts which events survive
@@ -373,6 +380,25 @@ def isAsc : List Nat → Bool
   | a :: b :: rest => decide (a < b) && isAsc (b :: rest)
   | _ => true
 
+/-- the cursor-level model of the attribute section against the messages `ms` (which at this point
+are textually those of the implementation): every attribute chunk it sends has the reports and the
+length of the corresponding message, the buffer it leaves holds the reports of the next message -/
+def cursorCheck (c : Cfg) (r : Req) (ms : List ChunkOut) : Option String :=
+  match r.attrs with
+  | none => none
+  | some as =>
+    match cattrs c pwAll false [] as with
+    | .error _ => some "the cursor-level model fails where the size-level model answers"
+    | .ok x =>
+      let sent := x.sent.reverse
+      let got := sent.map fun m => (reportStarts m, m.length + c.trailerMore, true)
+      let want := (ms.take sent.length).map fun ch => (ch.pieces, ch.size, ch.events.isEmpty && ch.more)
+      if got ≠ want then
+        some s!"attribute chunks {got.map fun g => (g.1.map rPiece, g.2.1)} (messages: {want.map fun g => (g.1.map rPiece, g.2.1)})"
+      else if ((ms.drop sent.length).head?.map (·.pieces)) ≠ some (reportStarts x.wb.live) then
+        some s!"open chunk {(reportStarts x.wb.live).map rPiece}"
+      else none
+
 structure St where
   h : Hdr := {}
 
@@ -422,12 +448,17 @@ def step (st : St) (line : String) : St × String :=
         -- a report presupposes the priming: if the device cannot prime, the subscription is not established
         let primed := !o.report || (match respond c (toReq st.h (primingOf o) [] 0) with | .ok _ => true | .error _ => false)
         if !primed then (if status = "hang" then (st, "ok") else (st, "DIS priming fails")) else
-        match respond c (toReq st.h o queue ms) with
+        let req := toReq st.h o queue ms
+        match respond c req with
         | .ok [] => if status.startsWith "none:" then (st, "ok") else (st, "DIS ok | (no message)")
         | .ok ms =>
           let mtext := ";".intercalate (ms.map rChunk)
           let itext := ";".intercalate (cs.map rIChunk)
-          if (status = "ok" || status.startsWith "ok:") && mtext = itext then (st, "ok") else (st, s!"DIS ok | {mtext}")
+          if (status = "ok" || status.startsWith "ok:") && mtext = itext then
+            match cursorCheck c req ms with
+            | none => (st, "ok")
+            | some why => (st, s!"DIS cursor {why}")
+          else (st, s!"DIS ok | {mtext}")
         | .error .loops => (st, "DIS loops")
         -- the device gives up: a request gets no (complete) answer, a report is not sent
         | .error .noSpace => if status = "hang" || (o.report && status.startsWith "none:") then (st, "ok") else (st, "DIS nospace")
